@@ -25,6 +25,11 @@ fn finish(ctx: &Ctx, c: Array, rc: T) {
     check_gradients(ctx.b, ctx.leaves, &rc, &ctx.seed, 1.0, false);
     witness();
     forget(c);
+    // end this leaf of the decision tree here: nothing follows, and without this CBMC merges the
+    // heap states of all leaves at the function returns (28 GB).  An assumption after the last
+    // assertion of a path does not weaken any of them (assumptions are not retroactive).
+    #[cfg(kani)]
+    kani::assume(false);
 }
 
 fn step(ctx: &Ctx, c: Array, rc: T, depth: usize) {
